@@ -677,6 +677,46 @@ func largeBody(sizes []int) func(c *mc.Ctx, item int) mc.Verdict {
 	}
 }
 
+// preambleBody: a standard-form CMap behind a long licence header (comment
+// lines, DSC lines or blank lines): what comes before `begincmap` may be of
+// any length.
+var preambleSizes = []int{0, 1000, 3000, 4000, 4080, 4090, 4095, 4096, 4097, 4100, 4200, 5000, 8192, 8200, 20000, 70000}
+var preambleKinds = []string{"comment lines", "DSC comment lines", "blank lines", "one long comment line"}
+
+func preambleBody(c *mc.Ctx, item int) mc.Verdict {
+	size := preambleSizes[item%len(preambleSizes)]
+	kind := item / len(preambleSizes)
+	m := baseCMap(0)
+	m.Blocks = []cm.Block{
+		{Kind: cm.CodeSpaceRange, Declared: -1, Entries: []cm.Entry{{Lo: cm.Str(0), Hi: cm.Str(0xff)}}},
+		{Kind: cm.CidRange, Declared: -1, Entries: []cm.Entry{{Lo: cm.Str(0x20), Hi: cm.Str(0x7e), Dst: cm.Int(1)}}},
+	}
+	f := cm.File{CMaps: []cm.CMap{m}}
+	body := cm.Write(f, cm.Layout{})
+	var pre bytes.Buffer
+	for pre.Len() < size {
+		switch kind {
+		case 0:
+			pre.WriteString("% Copyright 1990-2024 Example Systems Incorporated. All rights reserved.\n")
+		case 1:
+			pre.WriteString("%%Copyright: Example Systems Incorporated, redistribution with this notice\n")
+		case 2:
+			pre.WriteString("\n \n")
+		default:
+			pre.WriteString("% " + strings.Repeat("x", max(1, size-3)) + "\n")
+		}
+	}
+	data := append(pre.Bytes(), body...)
+	v := run(c, f, data, fmt.Sprintf("a one-block CMap behind %d bytes of %s", pre.Len(), preambleKinds[kind]), "")
+	if len(v.Render) > 300 {
+		v.Render = v.Render[:300] + "…"
+	}
+	if len(v.Detail) > 1200 {
+		v.Detail = v.Detail[:1200] + "…"
+	}
+	return v
+}
+
 func describeSeq(alpha []letter) func(int) string {
 	return func(item int) string {
 		ids := decodeSeq(item, len(alpha))
@@ -859,6 +899,15 @@ func main() {
 				Budget:   budget,
 				Rule:     fmt.Sprintf("item = (kind of 7, ordered pair or triple of distinct source codes from %x written in that file order): a code and the same code followed by 1..3 zero bytes, their byte-wise neighbours, codes of every length; the table must come back sorted by source code (code-space ranges by length, then code); non-trivial = distinct codes", sortCodes),
 				CrashKey: func(int) string { return "C07:crash:sort-order" },
+			})
+			fams = append(fams, mc.Family{
+				Name:     "long-preamble",
+				Items:    len(preambleSizes) * len(preambleKinds),
+				Body:     preambleBody,
+				Budget:   budget,
+				Rule:     fmt.Sprintf("item = (size of what precedes the CMap in %v bytes) x (%v): a one-block CMap in standard form behind a header of that size; it must be read exactly as without the header; non-trivial = all", preambleSizes, preambleKinds),
+				Describe: func(i int) string { return fmt.Sprintf("%d bytes of %s", preambleSizes[i%len(preambleSizes)], preambleKinds[i/len(preambleSizes)]) },
+				CrashKey: func(int) string { return "C07:crash:long-preamble" },
 			})
 			largeSizes := []int{1, 30, 300, 1000}
 			if tier == "thorough" {
